@@ -917,11 +917,9 @@ def convert_cart_to_sph(points, center=None):
     relat_pts = points - center
     # compute r
     r = np.linalg.norm(relat_pts, axis=-1)
-    # polar angle: arccos(z / r)
-    with np.errstate(divide="ignore", invalid="ignore"):
-        phi = np.arccos(relat_pts[:, 2] / r)
-    # fix nan generated when point is [0.0, 0.0, 0.0]
-    phi[r == 0.0] = 0.0
+    # polar angle: arctan2(sqrt(x^2 + y^2), z); accurate near the z-axis (arccos(z / r) loses up to
+    # half of the digits there) and equal to zero when the point is [0.0, 0.0, 0.0]
+    phi = np.arctan2(np.hypot(relat_pts[:, 0], relat_pts[:, 1]), relat_pts[:, 2])
     # azimuthal angle arctan2(y / x)
     theta = np.arctan2(relat_pts[:, 1], relat_pts[:, 0])
     return np.vstack([r, theta, phi]).T
